@@ -219,6 +219,31 @@ def gen_comb_history(rng):
     return e
 
 
+def gen_rel_comb_history(rng):
+    """relational sibling combs: a relation is widened by a join (the joined rows get spare capacity for some widths),
+    then the result is joined twice more with different relations; all values are listed at the end"""
+    base_cols = rng.choice([["a"], ["a", "b"], ["a", "b", "c"]])
+    rows = [[N(1)] + [N(rng.randrange(3)) for _ in base_cols[1:]], [N(2)] + [N(rng.randrange(3)) for _ in base_cols[1:]]]
+    defs = [X.rel(base_cols, rows)]
+    cur = 0
+    fresh = iter("k%d" % i for i in range(100))
+    for _ in range(rng.randrange(2, 5)):
+        sibs = []
+        op = rng.choice(["<&>", "<&>", "<->"]) if len(defs) > 1 else "<&>"
+        for _ in range(2):
+            col = next(fresh)
+            extra = [col] if rng.random() < 0.7 else [col, next(fresh)]
+            r = X.rel(["a"] + extra, [[N(1)] + [N(rng.randrange(5, 9)) for _ in extra]] + ([[N(2)] + [N(rng.randrange(5, 9)) for _ in extra]] if rng.random() < 0.5 else []))
+            defs.append(X.join("<&>" if op == "<->" and rng.random() < 0.5 else op if op != "<->" else "<&>", X.var("v%d" % cur), r))
+            sibs.append(len(defs) - 1)
+        cur = rng.choice(sibs)
+    body = X.arr([X.var("v%d" % i) for i in range(len(defs))])
+    e = body
+    for i in range(len(defs) - 1, -1, -1):
+        e = X.let(X.pvar("v%d" % i), defs[i], e)
+    return e
+
+
 # ---------- stream 3: histories through library functions (implementation only: prefix programs vs the whole program) ----------
 
 def gen_lib_history(rng, nops):
@@ -332,6 +357,8 @@ def main(tier, seed, replay=None):
                 gcases.append({"id": i, "label": "general", "ast": gen_general_history(rng, rng.randrange(3, 10))})
             for i in range(80 if tier == "quick" else 1500):
                 gcases.append({"id": len(gcases), "label": "comb", "ast": gen_comb_history(rng)})
+            for i in range(60 if tier == "quick" else 1000):
+                gcases.append({"id": len(gcases), "label": "relcomb", "ast": gen_rel_comb_history(rng)})
     gouts, gcodes, gfails = evalcheck.evaluate(vh, gcases) if gcases else ({}, {}, [])
     evalcheck.judge(run, gcases, gouts, gcodes, gfails,
                     "the list of all values of a branching history vs each value's own definition (reference interpreter)",
@@ -388,7 +415,7 @@ def main(tier, seed, replay=None):
         lens[len(ops)] = lens.get(len(ops), 0) + 1
     ok_general = sum(1 for c in gcases if gcodes.get(c["id"]) == 0)
     run.cov.update({"evaluations": len(hists) + len(gcases), "distinct_nontrivial": len(set(h[2] for h in hists)) + ok_general,
-                    "rule": "stream 1: branching histories of 3-14 derivations (with at the end/front/a hole/far away, without at either end or inside, offsets) over one string or one array of numbers (the same slice + offset + holes shape), every operation choosing any earlier value as parent; the program `let v0 = ..; let v1 = f(v_p); .. [v0..vn]` is evaluated by syntax.EvaluateExpr and every vi compared with the heap model (Sys/Heap.v, vm_compute); stream 2: histories over strings, arrays, bytes, dicts, sets and relations (with, without, ++, offsets, >>, |) against the reference interpreter; stream 3: histories derived with //seq.split / join / sub / concat / trim_*, where, with / without, ++ and >> over arrays (every definition using any earlier value), each value compared between the program that ends with its definition and the whole program; distinct by source; non-trivial = history evaluates and agrees",
+                    "rule": "stream 1: branching histories of 3-14 derivations (with at the end/front/a hole/far away, without at either end or inside, offsets) over one string or one array of numbers (the same slice + offset + holes shape), every operation choosing any earlier value as parent; the program `let v0 = ..; let v1 = f(v_p); .. [v0..vn]` is evaluated by syntax.EvaluateExpr and every vi compared with the heap model (Sys/Heap.v, vm_compute); stream 2: histories over strings, arrays, bytes, dicts, sets and relations (with, without, ++, offsets, >>, |) against the reference interpreter, incl. sibling combs (one parent extended twice at the same index) and relational combs (a relation widened by a join, then joined twice more); stream 3: histories derived with //seq.split / join / sub / concat / trim_*, where, with / without, ++ and >> over arrays (every definition using any earlier value), each value compared between the program that ends with its definition and the whole program; distinct by source; non-trivial = history evaluates and agrees",
                     "samples": [h[2] for h in hists[:3]] + [c["src"] for c in gcases[:3]],
                     "history_length_histogram": lens, "general_histories_agreeing": ok_general,
                     "library_histories": len(lib_hists), "library_histories_unchanged": lib_ok, "exhaustive": False})
